@@ -91,6 +91,7 @@ class EngineBase:
         self._names = {}
         self._symcache = {}
         self.ghost_hits = set()
+        self._suppress_side = 0
         self.abstract_fp = bool(getattr(contract, 'abstract_fp', False)) or bool(os.environ.get('VT_ABSFP'))
 
     # ------------------------------------------------------------------ helpers
@@ -192,7 +193,7 @@ class EngineBase:
         if op == "*":
             return a * b
         if op == "/":
-            if self.contract.div_side:
+            if self.contract.div_side and not self._suppress_side:
                 self.ob(st, f"L{lineno}:div-nonzero", "side", b != 0, lineno, "divisor != 0")
             return a / b
         raise Unsupported(f"real op {op}")
@@ -388,10 +389,22 @@ class EngineBase:
                     raise Unsupported("vector length mismatch")
                 self.ob(st, f"L{lineno}:broadcast-length", "side", eq, lineno)
 
+        if op == "/" and not self.mode.fp and self.contract.div_side and not self._suppress_side:
+            q = z3.Int(fresh_name("q"))
+            den = vb.at(q) if vb is not None else b
+            nz = self.to_float(den) != 0 if is_z3(den) or True else den != 0
+            nn_ = n if is_z3(n) else z3.IntVal(n)
+            self.ob(st, f"L{lineno}:elementwise-div-nonzero", "side",
+                    z3.ForAll([q], z3.Implies(z3.And(q >= 0, q < nn_), nz)), lineno, "every divisor of the elementwise division != 0")
+
         def at(i):
             x = va.at(i) if va is not None else a
             y = vb.at(i) if vb is not None else b
-            return self.binop(st, op, x, y, lineno)
+            self._suppress_side += 1
+            try:
+                return self.binop(st, op, x, y, lineno)
+            finally:
+                self._suppress_side -= 1
         # result kind
         ka = va.kind if va is not None else self.kind(a)
         kb = vb.kind if vb is not None else self.kind(b)
